@@ -70,11 +70,53 @@ Definition to_float (v : value) : option flt :=
   match v with VNum (NFloat _ f) => Some f | _ => None end.
 
 (* ---- comparison of observed and modelled results (checking side, not the library's ==) ---- *)
-Definition num_same (a b : num) : bool :=
+Definition num_close (a b : num) : bool :=
   match to_decimal (VNum a), to_decimal (VNum b) with
   | Some x, Some y => dec_close x y
   | None, None => match a, b with NJson s, NJson t => beqb s t | _, _ => false end
   | _, _ => false
+  end.
+
+(* the exact value of number text (no rounding): coefficient and exponent *)
+Definition exact_text (s : bytes) : option (Z * Z) :=
+  let '(neg, r) := match s with 45 :: t => (true, t) | 43 :: t => (false, t) | _ => (false, s) end in
+  let '(ip, ni, r1) := take_digits r 0 0 in
+  let '(c, nf, nd, r2) :=
+    match r1 with
+    | 46 :: t => let '(fp, nfr, r') := take_digits t ip 0 in (fp, nfr, ni + nfr, r')
+    | _ => (ip, 0, ni, r1)
+    end in
+  if nd =? 0 then None else
+  match r2 with
+  | [] => Some (if neg then - c else c, - nf)
+  | b :: t =>
+    if (b =? 101) || (b =? 69) then
+      let '(eneg, t') := match t with 45 :: u => (true, u) | 43 :: u => (false, u) | _ => (false, t) end in
+      let '(ev, ne, t'') := take_digits t' 0 0 in
+      if (ne =? 0) || negb (match t'' with [] => true | _ => false end) then None
+      else Some (if neg then - c else c, (if eneg then - ev else ev) - nf)
+    else None
+  end.
+Definition exact_num (n : num) : option (Z * Z) :=
+  match n with
+  | NJson t => exact_text t
+  | NDec (DFin s c e) => Some (sgn s c, e)
+  | NInt _ z => Some (z, 0)
+  | _ => None
+  end.
+Definition is_computed (n : num) : bool := match n with NDec _ | NFloat _ _ => true | _ => false end.
+
+(* Numbers that were computed (decimals, floats) are compared within the rounding the decimal package may
+   apply (it keeps some 35-digit coefficients); a number that passed through verbatim (JSON text, a Go
+   integer) must keep its exact value, whatever carries it on the other side. *)
+Definition num_same (a b : num) : bool :=
+  if is_computed a && is_computed b then num_close a b else
+  match exact_num a, exact_num b with
+  | Some x, Some y =>
+    if (Z.abs (snd x) <? 20000) && (Z.abs (snd y) <? 20000)
+    then (let '(p, q, _) := align (fst x) (snd x) (fst y) (snd y) in p =? q)
+    else num_close a b
+  | _, _ => num_close a b
   end.
 
 Fixpoint value_same (a b : value) : bool :=
